@@ -25,6 +25,16 @@ def limit(case):
         # arrays with several axes in every memory layout: each point has its own limit g(z0[idx])
         Z = np.array([[0.3, -1.2, 2.0], [0.7, 1.1, -0.4]])
         g = lambda z: 2.0 + z + 0.5 * z * z
+        # several points at once on a spiral path (complex Richardson weights): each point has its own limit
+        zs = np.array([0.5, -1.0, 2.0])
+        for method in ('above', 'below'):
+            def fs(z):
+                d = z - zs
+                with np.errstate(all='ignore'):
+                    return np.exp(z) * np.where(d == 0, 1.0, np.sin(d) / np.where(d == 0, 1.0, d))
+            v = Limit(fs, path='spiral', method=method).limit(zs)
+            if np.shape(v) != zs.shape or not np.allclose(v, np.exp(zs), rtol=1e-7, atol=1e-8):
+                bad.append(dict(path='spiral', method=method, z0=zs.tolist(), got=str(np.asarray(v).tolist()), expected=np.exp(zs).tolist()))
         for name, z0 in [('C', Z), ('F', np.asfortranarray(Z)), ('transposed-view', np.ascontiguousarray(Z.T).T)]:
             def f(z, z0=z0):
                 d = z - z0
